@@ -111,7 +111,7 @@ func jsonNonTrivial(v jv.Val) bool {
 // C16: every string and key can be written literally and decodes to itself.
 func TestC16_Literals(t *testing.T) {
 	c := collector("C16", "literals")
-	rapid.Check(t, func(t *rapid.T) {
+	check(t, func(t *rapid.T) {
 		ch := gen.Chooser{T: t}
 		kind := rapid.IntRange(0, 3).Draw(t, "kind")
 		c.Case()
